@@ -346,30 +346,30 @@ func c15Callers(c *eng.Ctx) {
 	// the bundle handed to the primitive
 	c.Clause("R5", "C15.1")
 	if f := c.Fn("pki.signCert"); f != nil {
-		sc := eng.Calls(f, `^certutil\.SignCertificate$`)
+		sc := c15Sites(f, `^certutil\.SignCertificate$`)
 		if c.Floor(f, "certutil.SignCertificate call", len(sc), 1) {
 			for _, s := range sc {
-				c.Prov(f, "bundle signed by signCert", s, s.Common().Args[0], `^call:pki\.generateCreationBundle#0$`)
+				c.Prov(f, "bundle signed by signCert", s.Call, s.Arg(0), `^call:pki\.generateCreationBundle#0$`)
 			}
 			c.Clause("R2", "C15.1")
-			c.Cut(f, "certutil.SignCertificate", instrsOf(sc), eng.GCallOK(f, `^pki\.generateCreationBundle$`), nil)
+			c.Cut(f, "certutil.SignCertificate", c15SiteAts(sc), eng.GCallOK(f, `^pki\.generateCreationBundle$`), nil)
 		}
 	}
 	if f := c.Fn("pki.generateCert"); f != nil {
 		c.Clause("R5", "C15.1")
-		gc := eng.Calls(f, `^pki\.generateCABundle$`)
+		gc := c15Sites(f, `^pki\.generateCABundle$`)
 		if c.Floor(f, "generateCABundle call", len(gc), 1) {
 			for _, s := range gc {
-				c.Prov(f, "bundle issued by generateCert", s, s.Common().Args[2], `^call:pki\.generateCreationBundle#0$`)
+				c.Prov(f, "bundle issued by generateCert", s.Call, s.Arg(2), `^call:pki\.generateCreationBundle#0$`)
 			}
 			c.Clause("R2", "C15.1")
-			c.Cut(f, "generateCABundle", instrsOf(gc), eng.GCallOK(f, `^pki\.generateCreationBundle$`), nil)
+			c.Cut(f, "generateCABundle", c15SiteAts(gc), eng.GCallOK(f, `^pki\.generateCreationBundle$`), nil)
 		}
 	}
 	if f := c.Fn("pki.generateCABundle"); f != nil {
 		c.Clause("R5", "C15.1")
-		for _, s := range eng.Calls(f, `^certutil\.CreateCertificate`) {
-			c.Prov(f, "bundle handed to certutil", s, s.Common().Args[0], `^param:data$`)
+		for _, s := range c15Sites(f, `^certutil\.CreateCertificate`) {
+			c.Prov(f, "bundle handed to certutil", s.Call, s.Arg(0), `^param:data$`)
 		}
 		// the wrapper does not touch the parameters
 		st := eng.Stores(f, `\.Params(\.|$)`)
@@ -499,16 +499,16 @@ func c15CABit(c *eng.Ctx) {
 		if f == nil {
 			continue
 		}
-		calls := eng.Calls(f, `^pki\.(generateCert|signCert)$`)
+		calls := c15Sites(f, `^pki\.(generateCert|signCert)$`)
 		if !c.Floor(f, "generateCert/signCert call", len(calls), 1) {
 			continue
 		}
 		c.Clause("R5", "C15.2")
 		for _, s := range calls {
-			c.Prov(f, "signing bundle of a leaf issuance", s, s.Common().Args[2], strings.TrimSuffix(strings.Replace(h.fetch, "^", "^call:", 1), "$")+`#0$`)
+			c.Prov(f, "signing bundle of a leaf issuance", s.Call, s.Arg(2), strings.TrimSuffix(strings.Replace(h.fetch, "^", "^call:", 1), "$")+`#0$`)
 		}
 		c.Clause("R2", "C15.2")
-		c.Cut(f, "generateCert/signCert", instrsOf(calls), eng.GCallOK(f, h.fetch), nil)
+		c.Cut(f, "generateCert/signCert", c15SiteAts(calls), eng.GCallOK(f, h.fetch), nil)
 	}
 	c.Clause("R4", "C15.2")
 	for _, fn := range []string{"pki.(*backend).fetchCaSigningBundle", "pki.(*storageContext).fetchCAInfoWithIssuer", "pki.(*storageContext).fetchCAInfoByIssuerId", "pki.(*storageContext).fetchCAInfo"} {
